@@ -11,6 +11,9 @@
 //          the program is built as an i_mep (one gene per row, root at row 0) and run by vita::run, i.e. by
 //          the real src_interpreter; the categories announced in the node are checked against the symbol's
 // output : <value>  |  THROW  |  EXC <what>  |  MISMATCH <what>
+//
+// input  : LIBM <sin|cos|exp|log> <hex64>           (C13: the C library function itself, for the H_libm hypotheses)
+// output : <hex64>   (all NaNs alike)
 #include <map>
 #include <memory>
 
@@ -215,6 +218,18 @@ int main()
     const auto w(vv::split(line));
     if (w.size() < 3) { std::cout << "BADLINE\n"; continue; }
     if (w[0] == "TREE") { run_tree_line(w, tree_syms); continue; }
+    if (w[0] == "LIBM")
+    {
+      const double x(vv::double_of(std::stoull(w[2], nullptr, 16)));
+      double r(0.0);
+      if (w[1] == "sin") r = std::sin(x);
+      else if (w[1] == "cos") r = std::cos(x);
+      else if (w[1] == "exp") r = std::exp(x);
+      else if (w[1] == "log") r = std::log(x);
+      else { std::cout << "UNKNOWN\n"; continue; }
+      std::cout << (r != r ? std::string("7ff8000000000000") : vv::hex64(vv::bits_of(r))) << '\n';
+      continue;
+    }
     const auto it(prims.find(w[0]));
     if (it == prims.end()) { std::cout << "UNKNOWN\n"; continue; }
     stub s;
